@@ -201,11 +201,15 @@ def rows_vs_expected(snap, expected, final_sig, names):
         if len(real) != len(rows):
             out.append({'table': table, 'kind': 'row-count', 'expected': len(rows), 'real': len(real)})
             continue
-        real_by_id = {r.get('id'): r for r in real}
+        # rows are matched through the model's primary key, whatever it is called by now
+        pkf = next((fn for fn, fs in final[mn]['fields'].items()
+                    if as_dict(fs['attrs']).get('primary_key')), 'id')
+        pkc = as_dict(final[mn]['fields'].get(pkf, {}).get('attrs', {})).get('db_column') or names.field(pkf)
+        real_by_id = {r.get(pkc): r for r in real}
         for r in rows:
-            rr = real_by_id.get(r.get('id'))
+            rr = real_by_id.get(r.get(pkf))
             if rr is None:
-                out.append({'table': table, 'kind': 'row-lost', 'id': r.get('id')})
+                out.append({'table': table, 'kind': 'row-lost', 'id': r.get(pkf)})
                 continue
             for fn, v in r.items():
                 fs = final[mn]['fields'].get(fn)
@@ -217,7 +221,7 @@ def rows_vs_expected(snap, expected, final_sig, names):
                     out.append({'table': table, 'kind': 'column-missing', 'column': col})
                     break
                 if not _cell_equal(rr[col], v):
-                    out.append({'table': table, 'kind': 'cell', 'column': col, 'id': r.get('id'),
+                    out.append({'table': table, 'kind': 'cell', 'column': col, 'id': r.get(pkf),
                                 'expected': v, 'real': rr[col]})
     return out
 
@@ -553,9 +557,9 @@ def abstract_fresh_vs_real(spec_fresh, fresh_proj, names):
         ridx = sorted([[x.split(' ')[0] for x in ix[0]], bool(ix[1])] for ix in real[t]['indexes'])
         if widx != ridx:
             out.append({'table': t, 'kind': 'indexes', 'spec': widx, 'django': ridx})
-        wfk = sorted([col(x[0]), names.table(x[1]) if x[1].startswith('t_') else x[1]]
+        wfk = sorted([col(x[0]), names.table(x[1]) if x[1].startswith('t_') else x[1], col(x[2])]
                      for x in info['fks'])
-        rfk = sorted([c, v[0]] for c, v in real[t]['fks'].items())
+        rfk = sorted([c, v[0], v[1]] for c, v in real[t]['fks'].items())
         if wfk != rfk:
             out.append({'table': t, 'kind': 'fks', 'spec': wfk, 'django': rfk})
     for t in real:
